@@ -130,6 +130,7 @@ func (s *fsm12) prepare(ctx context.Context, conn Conn) (State, error) {
 		return StateErrored, err
 	}
 
+	pkts = verifEditFlight(s.state, s.currentFlight.String(), pkts)
 	s.flights = pkts
 	epoch := s.cfg.InitialEpoch
 	nextEpoch := epoch
